@@ -166,6 +166,7 @@ StepEv(s, t, e) ==
   LET c == s.chan[e.ch]
       upd(c2, vs) == [s EXCEPT !.chan = Put(s.chan, e.ch, c2), !.v = s.v \cup vs]
       afterStop == V("C13.last", ~(c.st = "stopped" /\ ~c.cacheonly), <<"event after SearchStopped", e.k, e.ch>>)
+                   \cup V("C17.final", ~(c.kind = "host" /\ c.st = "stopped"), <<"event on a hostname-resolution channel after its SearchStopped (stop or timeout)", e.k, e.ch>>)
       first == V("C13.first", c.st # "fresh" \/ e.k = "SearchStarted", <<"first event is not SearchStarted", e.k>>)
   IN
   IF c.kind = "browse" THEN
@@ -295,6 +296,11 @@ ParkInvariants(ch, t) ==
                                                                      /\ T < t[id].exp,
            <<"address expired or withdrawn but no AddressesRemoved",
              {p \in c.found : ~\E id \in Dom(t) : IsAddrTy(id[1]) /\ id[2] = c.key /\ t[id].ip = p[1] /\ t[id].ifx = p[2] /\ T < t[id].exp}>>)
+         \* the same observation read as C11: a record does not outlive its TTL (or the second a cache-flush leaves it)
+         \cup V("C11.ttl", \A p \in c.found : \E id \in Dom(t) : /\ IsAddrTy(id[1]) /\ id[2] = c.key /\ t[id].ip = p[1] /\ t[id].ifx = p[2]
+                                                               /\ T < t[id].exp,
+                <<"an address is still held (not reported removed) after its TTL, or more than a second after a cache-flush displaced it",
+                  {p \in c.found : ~\E id \in Dom(t) : IsAddrTy(id[1]) /\ id[2] = c.key /\ t[id].ip = p[1] /\ t[id].ifx = p[2] /\ T < t[id].exp}>>)
          \cup V("C17.found-owed",
                 \A id \in {y \in Dom(t) : IsAddrTy(y[1]) /\ y[2] = c.key /\ t[y].forus /\ t[y].ttl # 0 /\ T + 1000 < t[y].exp /\ t[y].at >= c.at} :
                    <<t[id].ip, t[id].ifx>> \in c.ever,
@@ -393,6 +399,23 @@ MarksOwed(tBefore, tAfter, ch) ==
           <<"refresh mark passed without a query", id, fell, T>>)
      : id \in {x \in NeededIds(tBefore, ch) : x \in Dom(tAfter)}}
 
+(* C17: the addresses of a host that is being resolved are refreshed at 80 % of their life *)
+HostMarksOwed(tBefore, tAfter, ch) ==
+  LET hk == {ch[x].key : x \in {y \in Dom(ch) : ch[y].kind = "host" /\ ch[y].bound /\ ch[y].st = "started"}}
+      need == {id \in Dom(tBefore) : IsAddrTy(id[1]) /\ id[2] \in hk /\ tBefore[id].forus /\ tBefore[id].ttl > 1 /\ T < tBefore[id].exp /\ T < tBefore[id].vexp}
+  IN UNION {
+     LET e == tBefore[id]
+         fell == {m \in {80} \ e.marks : lastT < MarkTime(e, m) /\ MarkTime(e, m) <= T}
+     IN V("C17.refresh", fell = {} \/ tAfter[id].marks # e.marks, <<"80 % of an address record's life passed without a refresh query", id, T>>)
+     : id \in {x \in need : x \in Dom(tAfter)}}
+  \* ... and none runs out of TTL (its own, not cut short by a cache-flush or a goodbye) without that query ever having been sent
+  \cup UNION {V("C17.refresh", 80 \in tBefore[id].marks \/ (id \in Dom(tAfter) /\ 80 \in tAfter[id].marks),
+                <<"an address of a host being resolved ran out of TTL without the 80 % refresh query ever being sent", id, T>>)
+             : id \in {x \in Dom(tBefore) : /\ IsAddrTy(x[1]) /\ x[2] \in hk /\ tBefore[x].forus /\ tBefore[x].ttl > 1
+                                               /\ tBefore[x].exp = tBefore[x].at + LifeMs(tBefore[x].ttl) /\ tBefore[x].vdl = 0
+                                               /\ lastT < tBefore[x].exp /\ tBefore[x].exp <= T
+                                               /\ (x \in Dom(tAfter) => tAfter[x].at = tBefore[x].at)}}
+
 (* C12: the wake-up the daemon asks for when it parks covers all pending      *)
 (* time-driven work of the querier side that the history implies             *)
 HostNeeded(t, ch) ==
@@ -467,6 +490,9 @@ RECURSIVE SumUs(_, _)
 SumUs(t, S) == IF S = {} THEN 0 ELSE LET x == CHOOSE y \in S : TRUE IN Cardinality(t[x].us) + SumUs(t, S \ {x})
 (* one cached record per owner spelling (letter case) is tolerated           *)
 Count(t, tys) == SumUs(t, {id \in Dom(t) : id[1] \in tys /\ lastT < t[id].exp})
+(* records of a name of which something arrived in a packet that was for us (the daemon keeps further records of a name it already holds) *)
+CountFu(t, tys) == LET fuNames == {y[2] : y \in {x \in Dom(t) : t[x].everFu}} IN
+                   SumUs(t, {id \in Dom(t) : id[1] \in tys /\ lastT < t[id].exp /\ id[2] \in fuNames})
 RECURSIVE NewArrivals(_)
 NewArrivals(ds) ==
   IF ds = <<>> THEN <<>>
@@ -483,9 +509,19 @@ MetricsChecks(t, ch) ==
     IN IF TRUE THEN
          V("C20.bound", /\ m["cached-ptr"] <= Count(t, {"PTR"}) /\ m["cached-srv"] <= Count(t, {"SRV"})
                         /\ m["cached-txt"] <= Count(t, {"TXT"}) /\ m["cached-addr"] <= Count(t, {"A", "AAAA"}),
-           <<"more records cached than were received and are still alive",
+           <<IF \E id \in Dom(t) : Cardinality(t[id].everUs) > 1
+             THEN "a record is cached once per letter-case spelling of its owner name, each copy with its own TTL: more records cached than distinct records alive"
+             ELSE "more records cached than were received and are still alive",
              <<m["cached-ptr"], Count(t, {"PTR"})>>, <<m["cached-srv"], Count(t, {"SRV"})>>,
              <<m["cached-txt"], Count(t, {"TXT"})>>, <<m["cached-addr"], Count(t, {"A", "AAAA"})>>>>)
+         \* unrequested data is not kept: records that only ever arrived in packets that were somebody else's answers
+         \cup V("C20.unrequested", /\ m["cached-srv"] <= CountFu(t, {"SRV"}) /\ m["cached-txt"] <= CountFu(t, {"TXT"})
+                               /\ m["cached-addr"] <= CountFu(t, {"A", "AAAA"}) /\ m["cached-ptr"] <= CountFu(t, {"PTR"}),
+                <<IF \E id \in Dom(t) : Cardinality(t[id].everUs) > 1
+                  THEN "a record is cached once per letter-case spelling of its owner name, each copy with its own TTL: more records cached than distinct records alive"
+                  ELSE "records kept of names of which nothing ever arrived in a packet for us (only in answers to somebody else's browse)",
+                  <<m["cached-ptr"], CountFu(t, {"PTR"})>>, <<m["cached-srv"], CountFu(t, {"SRV"})>>, <<m["cached-txt"], CountFu(t, {"TXT"})>>,
+                  <<m["cached-addr"], CountFu(t, {"A", "AAAA"})>>>>)
          \* per statement: proportional to what searches need, not to the traffic
          \cup V("C20.timers", m["timer"] <= 8 + 12 * (Cardinality({id \in Dom(t) : lastT < t[id].exp}) + searches) + 3 * Cardinality(Dom(t)),
                 <<"timers grow with the number of record arrivals (two per arrival, kept until due), not with what searches need",
@@ -554,6 +590,7 @@ Iter ==
                     \cup (IF Ev.alive /\ ~s1.down THEN ParkInvariants(s2.chan, s1.tab) \cup SchedOwed(s1.sched, s3.used)
                                                        \cup MarksOwed(s1.tab, s3.tab, s2.chan)
                                                        \cup AskOwed(LackStep(lack, s3.tab, s2.chan), s3.fu)
+                                                       \cup HostMarksOwed(s1.tab, s3.tab, s2.chan)
                                                        \cup WakeCover(s3.tab, s2.chan, AdvanceSched(s1.sched, s3.used), s3.fu, {v \in s1.verifs : T < v.at + 1000})
                           ELSE {})
                     \cup KnownAnswerChecks(s1.tab) \cup Everywhere(s3.used) \cup MetricsChecks(s1.tab, s2.chan)
